@@ -1,5 +1,6 @@
 import GcArena.Proofs.Quiet
 import GcArena.Proofs.Protocol
+import GcArena.Proofs.GrayMono
 /-!
 # C08 — Collection-phase protocol of the Arena API
 
@@ -223,6 +224,63 @@ theorem cycle_never_rewakes (c : Ctx) (root : List Slot) (ru : RunUntil) (f : Tr
   rw [List.getElem?_eq_none hjge]
   simp
 
+/-- No mutator operation removes pending marking work: every queued `gray` / `gray_again` entry
+    stays queued and `root_needs_trace` stays set — in every state (no invariant needed), for
+    accepted, rejected and faulting operations alike. -/
+theorem callbacks_keep_marking_work (a : Arena) (op : Op) (hop : op.isMutator = true) :
+    GrayMono a.ctx (a.step op).1.ctx :=
+  step_grayMono a op hop
+
+/-- Callbacks never finish marking: `gray_remaining()` cannot go from `true` to `false` inside a
+    callback, so Marking never becomes Marked there. -/
+theorem callbacks_never_finish_marking {a : Arena} (op : Op) (hop : op.isMutator = true)
+    (hg : a.ctx.grayRemaining = true) : (a.step op).1.ctx.grayRemaining = true :=
+  (step_grayMono a op hop).grayRemaining hg
+
+/-- The same for a whole callback body (any sequence of mutator operations). -/
+theorem callback_bodies_never_finish_marking {a : Arena} (ops : List Op)
+    (hops : ∀ op ∈ ops, op.isMutator = true) (hg : a.ctx.grayRemaining = true) :
+    (a.run ops).ctx.grayRemaining = true :=
+  (run_grayMono a ops hops).grayRemaining hg
+
+/-- Stated through the test `mark_debt` / `finish_marking` perform: a mutator operation keeps the
+    internal phase, and if the arena is fully marked afterwards it was fully marked before. -/
+theorem callbacks_never_mark {a : Arena} (h : Inv a) (op : Op) (hop : op.isMutator = true) :
+    (a.step op).1.ctx.phase = a.ctx.phase ∧
+      (Arena.isMarked (a.step op).1.ctx = true → Arena.isMarked a.ctx = true) := by
+  have hp := callbacks_keep_phase h op hop
+  refine ⟨hp, fun hm => ?_⟩
+  simp only [Arena.isMarked, Bool.and_eq_true, decide_eq_true_eq, Bool.not_eq_true'] at hm ⊢
+  refine ⟨hp ▸ hm.1, ?_⟩
+  cases hg : a.ctx.grayRemaining with
+  | false => rfl
+  | true =>
+    have := callbacks_never_finish_marking op hop hg
+    rw [hm.2] at this
+    cases this
+
+/-- The observable phase (`Arena::collection_phase`) under a mutator operation: unchanged, or
+    Marked → Marking (a write barrier, the root barrier of `mutate_root`, or `resurrect` re-queued
+    work).  Nothing else: in particular never Marking → Marked. -/
+theorem callbacks_move_phase_only_marked_to_marking {a : Arena} (h : Inv a) (op : Op)
+    (hop : op.isMutator = true) :
+    (a.step op).1.collectionPhase = a.collectionPhase ∨
+      (a.collectionPhase = "Marked" ∧ (a.step op).1.collectionPhase = "Marking") := by
+  have hp := callbacks_keep_phase h op hop
+  unfold Arena.collectionPhase
+  rw [hp]
+  cases hph : a.ctx.phase with
+  | mark =>
+    cases hg : a.ctx.grayRemaining with
+    | true => left; rw [callbacks_never_finish_marking op hop hg]
+    | false =>
+      cases hg' : (a.step op).1.ctx.grayRemaining with
+      | true => right; exact ⟨rfl, rfl⟩
+      | false => left; rfl
+  | sweep => left; rfl
+  | sleep => left; rfl
+  | drop => left; rfl
+
 /-! ### Non-vacuity -/
 
 /-- A state with work left in every queue satisfies the hypotheses of the three loop theorems. -/
@@ -234,5 +292,34 @@ example : CInv ((Arena.new 1).run [.enter .mutate, .alloc true [none], .leave]).
 
 example : Arena.isMarked ((Arena.new 1).run
     [.collect .finishMarking .drop none (some [.wake, .markStep none, .markBreak])]).ctx = true := by decide
+
+/-- root → 0, fully marked (object 0 black), inside a `mutate` callback holding object 0.
+    `Marked → Marking` does happen: below through a backward barrier on the black object and
+    through the root barrier of `mutate_root`; `C07.demo` shows the `resurrect` route. -/
+def markedDemo : List Op := [
+  .enter .mutateRoot, .alloc true [none], .rootStore 0 (some (.strong 0)), .leave,
+  .collect .finishMarking .drop none (some [.wake, .markStep none, .markStep none, .markBreak]),
+  .enter .mutate, .readRoot 0 ]
+
+example : ((Arena.new 1).run markedDemo).alive = true := by decide
+example : ((Arena.new 1).run markedDemo).collectionPhase = "Marked" := by decide
+example : (((Arena.new 1).run markedDemo).step (.barrier (.bb 0 none))).1.collectionPhase = "Marking" := by
+  decide
+example : (((Arena.new 1).run (markedDemo.take 5)).step (.enter .mutateRoot)).1.collectionPhase = "Marking" := by
+  decide
+
+/-- Both disjuncts of `callbacks_move_phase_only_marked_to_marking` occur on `markedDemo`: the
+    barrier takes the second, the (barrier-free) read the first. -/
+example :
+    let a := (Arena.new 1).run markedDemo
+    (a.collectionPhase = "Marked" ∧ (a.step (.barrier (.bb 0 none))).1.collectionPhase = "Marking") ∧
+      (a.step (.read 0 0)).1.collectionPhase = a.collectionPhase := by decide
+
+/-- The hypothesis of `callbacks_never_finish_marking` is satisfiable inside a callback, and the
+    work then survives the rest of the callback. -/
+example :
+    let a := ((Arena.new 1).run markedDemo).run [.barrier (.bb 0 none)]
+    a.ctx.grayRemaining = true ∧ (a.run [.store .raw 0 0 none, .alloc true [none], .leave]).collectionPhase = "Marking" := by
+  decide
 
 end GcArena.C08
